@@ -48,7 +48,7 @@ struct Case {
     params: Vec<Param>,
     defs: Vec<(String, Ps)>,
     /// a history: this many harmless endpoints (unpublished, parameterless,
-    /// on paths no generated template can touch) are registered on the same
+    /// on paths /zz-pre/<k>; a template whose first segment is a variable or wildcard conflicts with them in the router, which the judge models) are registered on the same
     /// ApiDescription first; the validators must treat the probed declaration
     /// as they would on an empty description
     #[serde(default)]
@@ -211,7 +211,7 @@ fn exec(c: &Case, seed: u64) -> Line {
         Err(m) => (panic_class(&m), m),
     };
     let coq = format!(
-        "(CReg {} {} {} {} {} {} {} {} {})",
+        "(CReg {} {} {} {} {} {} {} {} {} {})",
         c.policy,
         g_bool(c.allow_other),
         g_list(&c.known_tags, |t| g_str(t)),
@@ -220,7 +220,8 @@ fn exec(c: &Case, seed: u64) -> Line {
         g_str(&c.path),
         g_list(&c.params, |p| format!("({}, {}, {})", p.loc, g_str(&p.name), g_ps(&p.ps))),
         g_list(&c.defs, |(n, p)| format!("({}, {})", g_str(n), g_ps(p))),
-        code
+        code,
+        c.prefix
     );
     let mut tags = vec![format!("code:{}", code), format!("params:{}", c.params.len()), format!("registered-before:{}", c.prefix)];
     if !c.defs.is_empty() {
